@@ -232,6 +232,8 @@ class Contract:
             if isinstance(v, Seq):
                 env[k] = ex.store_seq(st, v)
         short = self.key.split("::")[-1]
+        if getattr(ctx, "no_let", 0) > 0:
+            ctx.fresh_in_dry_run = True     # result symbols would have to depend on the loop index: no exact summary
         pre_state = st.fork()
         with spec_context(ex, st):
             ns = NS(st, env)
